@@ -60,8 +60,10 @@ def suite_replay_after_removal(tier, seed):
             forged["kind"] = 1 if kind != 1 else 7
         q = asyncio.Queue()
         await st.subscribe(env.FakeClient("w"), "w", [{"authors": [e1["pubkey"]]}], q)
-        while not q.empty():
-            q.get_nowait()
+        while True:                  # the stored answer (which legitimately holds the genuine event while it is stored) comes first
+            sid, ev = await asyncio.wait_for(q.get(), 20)
+            if ev is None:
+                break
         r2 = await _submit(st, forged)
         await env.quiesce(st)
         for t in list(st._notify_sub_tasks):
@@ -329,10 +331,11 @@ def suite_output_validator_context(tier, seed, backends=("sql", "kv")):
                 tok = {} if roles is None else {"pubkey": env.PUBS[2], "roles": set(roles), "now": env.NOW}
                 await st.subscribe(c, "live", [{"kinds": [1]}], q, auth_token=tok)
                 conns.append((c, q, tok))
-            await asyncio.sleep(0.02)
-            for c, q, tok in conns:            # drain the EOSE of the (empty) stored answer
-                while not q.empty():
-                    q.get_nowait()
+            for c, q, tok in conns:            # the (empty) stored answer must be complete before anything is published
+                while True:
+                    sid, ev = await asyncio.wait_for(q.get(), 20)
+                    if ev is None:
+                        break
             for e in evs:
                 await st.add_event(e, auth_token={"pubkey": env.PUBS[0], "roles": set("arw"), "now": env.NOW})
                 await env.quiesce(st)
@@ -765,6 +768,10 @@ def suite_two_workers(tier, seed):
                     await web.start_mainprocess_tasks(st)
                 q = asyncio.Queue()
                 await st.subscribe(env.FakeClient("w%d" % i), "s", [{"kinds": [1]}], q)
+                while True:                      # the stored answer (empty) is complete before anything is accepted
+                    sid, ev = await asyncio.wait_for(q.get(), 20)
+                    if ev is None:
+                        break
                 workers.append(st)
                 queues.append(q)
             # the last worker accepts an event before its notifier is connected
@@ -794,7 +801,7 @@ def suite_two_workers(tier, seed):
                     accepted.append(e["id"])
                 await asyncio.sleep(0.01)
             got = [[] for _ in workers]
-            for _ in range(300):
+            for _ in range(1500):
                 for i, q in enumerate(queues):
                     while not q.empty():
                         sid, ev = q.get_nowait()
@@ -854,6 +861,296 @@ def suite_two_workers(tier, seed):
                           "the subscriber of worker %d was pushed %d of %d accepted events (%d missing, %d repeated)" % (i, len(set(g) & set(accepted)), len(accepted), len(missing), len(dup)),
                           expected=len(accepted), observed={"missing": missing[:4], "repeated": dup[:4]})
                 break
+    return s
+
+
+# ------------------------------------------------------------------------------------ C19: the idle timeout is a clean close
+def suite_idle_timeout(tier, seed):
+    s = Suite("oracle:idle-timeout-closes-cleanly")
+    s.rule = ("web.start_client with message_timeout 0.6-1.0 s (real time): a connection with 1-3 subscriptions falls silent; it must be closed "
+              "(code 1013) once, its handler must return without an exception, its registrations must be gone and its query / sender tasks "
+              "finished, while a second connection (default timeout) keeps receiving live events; a connection that keeps sending is not closed; "
+              "non-trivial = the idle connection held subscriptions when it timed out")
+    rng = rng_for(seed, "idle")
+
+    async def one(timeout_s, nsubs, backend):
+        import falcon
+        from nostr_relay import web
+        from . import relay
+        env.load_config(subscription_limit=10)
+        env.patch_clock()
+        sc = env.Scratch()
+        st = await (env.sql_storage(sc) if backend == "sql" else env.kv_storage(sc))
+        saved_async = web.asyncio
+        web.asyncio = asyncio                      # real sleeps: the timeout is about real time
+        obs = {}
+        try:
+            class C:
+                def __init__(self):
+                    self.inbox, self.sent, self.closed = asyncio.Queue(), [], []
+
+                async def send(self, text):
+                    self.sent.append(json.loads(text))
+
+                async def recv(self):
+                    item = await self.inbox.get()
+                    if item is None:
+                        raise falcon.WebSocketDisconnected()
+                    return item
+
+                async def close(self, code=1000):
+                    self.closed.append(code)
+            idle, busy, other = C(), C(), C()
+            lim = relay.NullLimiter()
+            tasks = {}
+            for name, c, to in (("idle", idle, timeout_s), ("busy", busy, timeout_s), ("other", other, 1800)):
+                tasks[name] = asyncio.create_task(web.start_client(st, c.send, c.recv, c.close, logging.getLogger("verif.idle"), rate_limiter=lim,
+                                                                   remote_addr="10.2.0.1", message_timeout=to))
+            for i in range(nsubs):
+                idle.inbox.put_nowait(json.dumps(["REQ", "i%d" % i, {"kinds": [1]}]))
+            other.inbox.put_nowait(json.dumps(["REQ", "o", {"kinds": [1]}]))
+            t0 = asyncio.get_running_loop().time()
+            k = 0
+            while asyncio.get_running_loop().time() - t0 < timeout_s * 3 + 0.5:
+                await asyncio.sleep(timeout_s / 4)
+                k += 1
+                busy.inbox.put_nowait(json.dumps(["CLOSE", "nothing%d" % k]))
+            await st.add_event(env.mk_event(0, 1, env.NOW - 1, [], "after-timeout"))
+            await env.quiesce(st)
+            await asyncio.sleep(0.1)
+            obs["idle_closed"] = idle.closed
+            obs["idle_done"] = tasks["idle"].done()
+            obs["idle_exc"] = repr(tasks["idle"].exception()) if tasks["idle"].done() and not tasks["idle"].cancelled() and tasks["idle"].exception() else None
+            obs["busy_closed"] = busy.closed
+            obs["busy_done"] = tasks["busy"].done()
+            obs["registrations"] = sorted(len(v) for v in st.clients.values())
+            obs["other_live"] = sum(1 for f in other.sent if f[0] == "EVENT")
+            obs["idle_live_after_close"] = sum(1 for f in idle.sent if f[0] == "EVENT")
+            for c in (idle, busy, other):
+                c.inbox.put_nowait(None)
+            await asyncio.wait(list(tasks.values()), timeout=5)
+            obs["left_running"] = sum(1 for x in tasks.values() if not x.done())
+        finally:
+            web.asyncio = saved_async
+            await env.close(st)
+            sc.close()
+        return obs
+    for _ in range(2 if tier == "quick" else 8):
+        timeout_s = rng.choice([0.6, 0.8, 1.0])
+        nsubs = rng.randint(1, 3)
+        backend = rng.choice(["sql", "kv"])
+        obs = env.run(one(timeout_s, nsubs, backend))
+        case = {"message_timeout": timeout_s, "subscriptions": nsubs, "backend": backend}
+        s.case(case, nontrivial=nsubs > 0)
+        want = {"idle_closed": [1013], "idle_done": True, "idle_exc": None, "busy_closed": [], "busy_done": False, "registrations": [1],
+                "other_live": 1, "idle_live_after_close": 0, "left_running": 0}
+        if obs != want:
+            diff = {k: obs[k] for k in want if obs.get(k) != want[k]}
+            cls = "handler-exception-escaped" if obs.get("idle_exc") else ("registrations-leaked" if "registrations" in diff else "idle-timeout-not-clean")
+            s.violate(cls, case, "idle timeout: %r (expected %r)" % (diff, {k: want[k] for k in diff}), expected=want, observed=obs)
+    return s
+
+
+# ------------------------------------------------------------------------------------ C14: the output validator the relay ships
+def suite_homeserver_output(tier, seed, backends=("sql", "kv")):
+    s = Suite("oracle:recipe-whitelist_output_validator")
+    s.rule = ("recipe.homeserver.whitelist_output_validator as documented (an event is sent iff its author is whitelisted, or the connection is "
+              "authenticated as a whitelisted pubkey, or it is a kind-10002 relay list): (1) the full decision table author in/out x token "
+              "none / {} / whitelisted / outsider x kind {1, 10002}; (2) configured as output_validator on a real storage with an anonymous, a "
+              "whitelisted and an outsider connection holding live subscriptions: live pushes and a later stored answer per connection; SQL and "
+              "LMDB; non-trivial = an outsider's event is delivered to the whitelisted connection and withheld from the others")
+    rng = rng_for(seed, "c14home")
+    from nostr_relay.recipe.homeserver import whitelist_output_validator
+    import types
+    wl = [env.PUBS[0]]
+    cfg = types.SimpleNamespace(pubkey_whitelist=wl)
+    for author in (0, 1):
+        for tok in (None, {}, {"pubkey": env.PUBS[0], "roles": set("a")}, {"pubkey": env.PUBS[2], "roles": set("a")}):
+            for kind in (1, 10002):
+                from aionostr.event import Event
+                ev = Event(**env.mk_event(author, kind, env.NOW - 5, [], "h"))
+                got = bool(whitelist_output_validator(ev, {"config": cfg, "auth_token": tok, "client_id": "x"}))
+                want = (author == 0) or bool(tok and tok.get("pubkey") in wl) or kind == 10002
+                case = {"author_whitelisted": author == 0, "token": None if tok is None else tok.get("pubkey", "")[:8], "kind": kind}
+                s.case(case, nontrivial=True)
+                if got != want:
+                    s.violate("recipe-validator-deviates", case, "whitelist_output_validator returned %r, documented behaviour is %r" % (got, want))
+
+    async def one(backend, order, evs):
+        env.load_config(authentication={"enabled": True, "actions": {"save": "arw", "query": "arw"}, "default_roles": ["r"]},
+                        output_validator="nostr_relay.recipe.homeserver.whitelist_output_validator", pubkey_whitelist=wl)
+        env.patch_clock()
+        sc = env.Scratch()
+        st = await (env.sql_storage(sc) if backend == "sql" else env.kv_storage(sc))
+        toks = {"anon": {}, "member": {"pubkey": env.PUBS[0], "roles": set("a"), "now": env.NOW}, "outsider": {"pubkey": env.PUBS[2], "roles": set("a"), "now": env.NOW}}
+        out = {"live": {}, "stored": {}}
+        try:
+            conns = {}
+            for name in order:
+                q = asyncio.Queue()
+                c = env.FakeClient(name)
+                await st.subscribe(c, "live", [{"kinds": [1, 10002]}], q, auth_token=toks[name])
+                conns[name] = (c, q)
+            for c, q in conns.values():        # the (empty) stored answer must be complete before anything is published
+                while True:
+                    sid, ev = await asyncio.wait_for(q.get(), 20)
+                    if ev is None:
+                        break
+            for e in evs:
+                await st.add_event(e, auth_token={"pubkey": env.PUBS[0], "roles": set("arw"), "now": env.NOW})
+                await env.quiesce(st)
+                for _ in range(3):
+                    if st._notify_sub_tasks:
+                        await asyncio.wait(st._notify_sub_tasks)
+                    await asyncio.sleep(0)
+            for name, (c, q) in conns.items():
+                got = []
+                while not q.empty():
+                    sid, ev = q.get_nowait()
+                    if ev is not None:
+                        got.append(ev.id)
+                out["live"][name] = sorted(got)
+            for name, (c, q) in conns.items():
+                evs2, oc = await env.req(st, [{"kinds": [1, 10002]}], sub_id="again", auth_token=toks[name], client=c)
+                out["stored"][name] = sorted(e.id for e in evs2)
+        finally:
+            await env.close(st)
+            sc.close()
+        return out
+    for backend in backends:
+        for _ in range(2 if tier == "quick" else 15):
+            order = ["anon", "member", "outsider"]
+            rng.shuffle(order)
+            evs = []
+            for i in range(rng.randint(3, 6)):
+                who = rng.choice([0, 1, 1])
+                kind = rng.choice([1, 1, 10002]) if i else 1
+                evs.append(env.mk_event(who, kind, env.NOW - 20 + i, [["r", "wss://x%d" % i]] if kind == 10002 else [], "hs%d" % i))
+            evs.append(env.mk_event(1, 1, env.NOW - 1, [], "hs-outsider"))
+            # replaceable kind 10002: only the newest per author stays stored
+            out = env.run(one(backend, order, evs))
+            case = {"backend": backend, "order": order, "events": [[e["id"][:8], e["pubkey"] == env.PUBS[0], e["kind"]] for e in evs]}
+            s.case(case, nontrivial=True)
+
+            def visible(name, e):
+                return e["pubkey"] in wl or name == "member" or e["kind"] == 10002
+            newest_list = {}
+            for e in evs:
+                if e["kind"] == 10002:
+                    cur = newest_list.get(e["pubkey"])
+                    if cur is None or e["created_at"] > cur["created_at"]:
+                        newest_list[e["pubkey"]] = e
+            for name in order:
+                want_live = sorted(e["id"] for e in evs if visible(name, e))
+                want_stored = sorted(e["id"] for e in evs if visible(name, e) and (e["kind"] != 10002 or newest_list[e["pubkey"]] is e))
+                for path, want in (("live", want_live), ("stored", want_stored)):
+                    if out[path][name] != want:
+                        leaked = sorted(set(out[path][name]) - set(want))
+                        s.violate("output-validator-foreign-context" if leaked else "output-validator-withholds", dict(case, full_events=evs, path=path, connection=name),
+                                  "%s delivery to the %s connection differs from what whitelist_output_validator admits for it (%d leaked, %d withheld)"
+                                  % (path, name, len(leaked), len(set(want) - set(out[path][name]))),
+                                  expected=[x[:8] for x in want], observed=[x[:8] for x in out[path][name]])
+                        break
+    return s
+
+
+# ------------------------------------------------------------------------------------ C07: two events in flight, one of them fails
+def suite_concurrent_fault(tier, seed):
+    s = Suite("fault:sql-concurrent-transactions")
+    s.rule = ("file-backed SQLite (a real connection pool): a replacement A (supersedes two older versions, writes tag rows) and a kind-5 deletion B "
+              "with three references by another author are submitted at the same time (asyncio.gather) while an OperationalError is injected at the "
+              "k-th statement the engine executes, for every k until both complete untouched; afterwards the database (read with the sqlite3 module) "
+              "must be one of: neither applied, only A, only B, both - each event wholly or not at all - and a refused event must not have been "
+              "acknowledged; non-trivial = the fault hit one event while the other was in flight")
+    import os
+    import shutil
+    import tempfile
+    rng = rng_for(seed, "sqlconc")
+
+    async def apply(path, evs, fault_at=None, concurrent=False):
+        import sqlalchemy as sa
+        from nostr_relay.config import Config
+        from nostr_relay.storage import get_metadata
+        from nostr_relay.storage.db import DBStorage
+        env.load_config()
+        env.patch_clock()
+        o = {"sqlalchemy.url": "sqlite+aiosqlite:///" + path, "validators": ["nostr_relay.validators.is_signed"]}
+        Config.storage = dict(o)
+        st = DBStorage(o)
+        await st.setup()
+        async with st.db.begin() as conn:
+            await conn.run_sync(get_metadata().create_all)
+        n = [0]
+        fired = [False]
+
+        def before(conn, cur, stmt, params, ctx, many):
+            if stmt.lstrip().upper().startswith("PRAGMA"):
+                return
+            k = n[0]
+            n[0] += 1
+            if fault_at is not None and k == fault_at:
+                fired[0] = True
+                raise sa.exc.OperationalError(stmt, params, Exception("injected by the harness"))
+        sa.event.listen(st.db.sync_engine, "before_cursor_execute", before)
+
+        async def add(e):
+            try:
+                _, ok = await st.add_event(dict(e))
+                return bool(ok)
+            except Exception as ex:      # noqa
+                return type(ex).__name__
+        try:
+            if concurrent:
+                res = await asyncio.gather(*[add(e) for e in evs])
+            else:
+                res = [await add(e) for e in evs]
+        finally:
+            await st.close()
+        return res, n[0], fired[0]
+    for h in range(1 if tier == "quick" else 6):
+        wa, wb = rng.sample(range(3), 2)
+        base = [env.mk_event(wa, 10002, env.NOW - 100 + i, [["r", "wss://x%d" % i], ["t", "k"]], "v%d" % i) for i in (0, 2)]
+        notes = [env.mk_event(wb, 1, env.NOW - 100 + i, [["t", "k"]], "n%d" % i) for i in range(3)]
+        A = env.mk_event(wa, 10002, env.NOW - 10, [["r", "wss://new"], ["t", "k"], ["p", env.PUBS[3]]], "newest")
+        B = env.mk_event(wb, 5, env.NOW - 10, [["e", e["id"]] for e in notes] + [["t", "k"]], "bye")
+        d = tempfile.mkdtemp(prefix="verif-conc-")
+        try:
+            p0 = os.path.join(d, "base.sqlite3")
+            env.run(apply(p0, base + notes))
+            refs = {}
+            for name, evs in (("none", []), ("A", [A]), ("B", [B]), ("AB", [A, B])):
+                pk = os.path.join(d, "ref-%s.sqlite3" % name)
+                shutil.copy(p0, pk)
+                env.run(apply(pk, evs))
+                dump = _sqlite_dump(pk)
+                refs[name] = {k2: dump[k2] for k2 in ("events", "tags")}
+            for k in range(0, 60):
+                pk = os.path.join(d, "k%d.sqlite3" % k)
+                shutil.copy(p0, pk)
+                for suffix in ("-wal", "-shm"):
+                    if os.path.exists(p0 + suffix):
+                        shutil.copy(p0 + suffix, pk + suffix)
+                res, nstmt, fired = env.run(apply(pk, [A, B], fault_at=k, concurrent=True))
+                if not fired:
+                    break
+                got = _sqlite_dump(pk)
+                state = {k2: got[k2] for k2 in ("events", "tags")}
+                which = [name for name, r in refs.items() if r == state]
+                case = {"history": h, "fault_at_statement": k, "acks": res}
+                s.case(case, nontrivial=True)
+                s.count("state_" + (which[0] if which else "in-between"))
+                if got["integrity"] != "ok" or not which:
+                    s.violate("state-in-between-after-fault", case, "with two events in flight and an engine error in one of them the database is no combination of "
+                              "wholly applied / not applied events", expected={n2: r["events"] for n2, r in refs.items()}, observed=got)
+                    continue
+                applied = {"none": (False, False), "A": (True, False), "B": (False, True), "AB": (True, True)}[which[0]]
+                for name, ack, ap in (("A", res[0], applied[0]), ("B", res[1], applied[1])):
+                    if ack is True and not ap:
+                        s.violate("acked-but-not-applied", case, "%s was acknowledged as stored but is not in the database" % name, observed=which[0])
+                    if ack is not True and ap:
+                        s.violate("refused-but-applied", case, "%s was refused (%r) but is in the database" % (name, ack), observed=which[0])
+        finally:
+            shutil.rmtree(d, ignore_errors=True)
     return s
 
 
@@ -1082,6 +1379,13 @@ async def main():
     await st.setup()
     async with st.db.begin() as conn:
         await conn.run_sync(get_metadata().create_all)
+    if kill_at == -2:
+        # restart after the kill: the relay opens the database the way it does at start-up, a client reads, the relay shuts down
+        from harness.env import req
+        st._backend = "sql"
+        await req(st, [{"kinds": [1, 5, 10002]}])
+        await st.close()
+        return
     for ev in history[:-1]:
         await st.add_event(dict(ev))
     n = [0]
@@ -1127,8 +1431,8 @@ def suite_sqlite_kill(tier, seed):
     s = Suite("fault:sqlite-process-kill")
     s.rule = ("a history is applied by a child process to a file-backed SQLite database; while it applies the last event (a replacement that "
               "supersedes older versions and writes tag rows, or a kind-5 deletion with several references) the child SIGKILLs itself just before "
-              "its k-th statement, for every k; the parent reopens the file with the sqlite3 module: integrity_check ok and events+tags equal "
-              "to the dump without the last event or with it")
+              "its k-th statement, for every k; a fresh relay process is started on the file (DBStorage.setup, a REQ, close) and then the parent "
+              "reopens it with the sqlite3 module: integrity_check ok and events+tags equal to the dump without the last event or with it")
     rng = rng_for(seed, "sqlkill")
     repo = os.environ.get("VERIF_REPO", "/repo")
     envv = dict(os.environ, PYTHONPATH="%s:/verif/shims:/verif" % repo)
@@ -1163,6 +1467,10 @@ def suite_sqlite_kill(tier, seed):
                 case = {"history": kind, "kill_before_statement": k}
                 if rk.returncode == 0:
                     break                      # k is beyond the transaction: the event was applied without a kill
+                rr = run_child(pk, hist, -2)       # the relay is restarted on the killed database before the parent looks at it
+                if rr.returncode != 0:
+                    s.violate("restart-after-kill-failed", case, "the relay could not be started again on the database of the killed process",
+                              observed=rr.stderr.decode()[-400:])
                 got = _sqlite_dump(pk)
                 s.case(case, nontrivial=True)
                 s.count("killed_" + kind)
@@ -1257,6 +1565,7 @@ def suite_served_is_signed(tier, seed):
         st = await (env.sql_storage(sc) if backend == "sql" else env.kv_storage(sc))
         q = asyncio.Queue()
         await st.subscribe(env.FakeClient("live"), "live", [{"authors": env.PUBS[:3]}], q)
+        await env.drain_to_eose(q)
         bad = []
         n = 0
         kinds = [0, 1, 3, 5, 7, 10002, 30000, 30023]
@@ -1450,16 +1759,25 @@ def suite_stalled_reader(tier, seed):
         for i, e in enumerate(evs):
             before = len([x for x in conns["P"].sent if x.startswith('["OK"')])
             conns["P"].inbox.put_nowait(_json.dumps(["EVENT", e]))
-            for _ in range(4000):
+            deadline = asyncio.get_running_loop().time() + 30          # real time: a loaded machine is not a wedged relay
+            spins = 0
+            while True:
                 await asyncio.sleep(0)
                 if len([x for x in conns["P"].sent[-3:] if x.startswith('["OK"')]) and len(conns["P"].sent) > before:
                     break
-                if _ % 200 == 199:
-                    await asyncio.sleep(0.01)
-            else:
-                wedged_at = i
+                spins += 1
+                if spins % 200 == 199:
+                    await asyncio.sleep(0.005)
+                if asyncio.get_running_loop().time() > deadline:
+                    wedged_at = i
+                    break
+            if wedged_at is not None:
                 break
-        await asyncio.sleep(0.1)
+        for _ in range(1000):
+            await asyncio.sleep(0.01)
+            if sum(1 for x in conns["H"].sent if x.startswith('["EVENT"')) >= (N if wedged_at is None else 0):
+                break
+        await asyncio.sleep(0.05)
         got_h = [_json.loads(x)[2]["id"] for x in conns["H"].sent if x.startswith('["EVENT"')]
         oks = len([x for x in conns["P"].sent if x.startswith('["OK"')])
         conns["S"].block.set()
@@ -1499,6 +1817,7 @@ def suite_live_then_stored(tier, seed):
         for name, f in filters.items():
             qs[name] = asyncio.Queue()
             await st.subscribe(env.FakeClient(name), name, [dict(f)], qs[name])
+            await env.drain_to_eose(qs[name])
         evs = []
         for i in range(24 if tier == "quick" else 120):
             kind = rng.choice([1, 1, 7, 2 ** 32 - 1, 2 ** 32, 2 ** 63, 40000])
@@ -1551,6 +1870,9 @@ def registry():
         "oracle:kv-req-burst-every-req-answered": suite_kv_req_burst,
         "oracle:failing-query-still-answered": suite_failing_query_answered,
         "oracle:workers-share-accepted-events": suite_two_workers,
+        "oracle:idle-timeout-closes-cleanly": suite_idle_timeout,
+        "oracle:recipe-whitelist_output_validator": suite_homeserver_output,
+        "fault:sql-concurrent-transactions": suite_concurrent_fault,
         "oracle:limit-cap-plain-subscribe": suite_cap_plain_subscribe,
         "oracle:announce-every-accepted-event": suite_announce_all_accepted,
         "oracle:removed-unreachable-after-read": suite_removed_unreachable_after_read,
